@@ -68,13 +68,14 @@ pub(crate) fn run(seed: u64, n: u64, out: &mut Out) {
         };
         storage.add_fetched_tx(&dep_tx, &hdr(1));
         let dep = (dep_tx.calc_tx_hash(), 0u32);
-        // two dep groups: one listing the binary's cell, one that also lists a cell nobody knows
+        // three dep groups: one listing the binary's cell, one that also lists a cell nobody knows, one listing nothing
         let group_tx = {
             let mk = |pts: Vec<packed::OutPoint>| -> packed::Bytes { packed::OutPointVec::new_builder().set(pts).build().as_bytes().pack() };
             let good = mk(vec![packed::OutPoint::new(dep.0.clone(), 0)]);
             let bad = mk(vec![packed::OutPoint::new(dep.0.clone(), 0), packed::OutPoint::new([0x79u8; 32].pack(), 0)]);
             let o = packed::CellOutput::new_builder().capacity(10_000_0000_0000u64.pack()).build();
-            let raw = packed::RawTransaction::new_builder().outputs(vec![o.clone(), o].pack()).outputs_data(vec![good, bad].pack()).build();
+            let empty = mk(vec![]);
+            let raw = packed::RawTransaction::new_builder().outputs(vec![o.clone(), o.clone(), o].pack()).outputs_data(vec![good, bad, empty].pack()).build();
             packed::Transaction::new_builder().raw(raw).build()
         };
         storage.add_fetched_tx(&group_tx, &hdr(3));
@@ -114,7 +115,8 @@ pub(crate) fn run(seed: u64, n: u64, out: &mut Out) {
                     let mut what: &'static str = if !expect_ok { "spends-evicted-parent" } else if parent_pending { "valid-spends-pending" } else { "valid" };
                     if expect_ok && rng.chance(1, 2) {
                         expect_ok = false;
-                        match rng.below(10) {
+                        match rng.below(11) {
+                            10 => { what = "empty-dep-group"; groups.push((group.clone(), 2)); }   // the code itself stays reachable through the other deps
                             9 => { what = "dep-group-with-unknown-member"; deps.clear(); groups = vec![(group.clone(), 1)]; }
                             0 => { what = "outputs-exceed-inputs"; outputs = vec![out_cell(cap + 1)]; }
                             1 => { what = "capacity-below-occupied"; outputs = vec![out_cell(1_0000_0000)]; }
